@@ -77,6 +77,28 @@ Proof.
   rewrite H0. split; [tauto|lia].
 Qed.
 
+(* The fee verdict is a function of (fee, fee-relevant size, a, b) and of nothing
+   else in the transaction: not of is_valid, total collateral, collateral
+   return, donation, treasury value or any other body field. *)
+Theorem C30_fee_rule_function_of_fee_and_size : forall t a b,
+  fee_rule_tx t a b = fee_verdict (t_fee t) (tx_size_for_fee (t_era t) (t_stored t)) a b.
+Proof. reflexivity. Qed.
+
+Theorem C30_fee_rule_ignores_other_fields : forall t t' a b,
+  t_era t = t_era t' -> t_stored t = t_stored t' -> t_fee t = t_fee t' ->
+  fee_rule_tx t a b = fee_rule_tx t' a b /\ (forall m, max_size_rule_tx t m = max_size_rule_tx t' m).
+Proof.
+  intros t t' a b He Hs Hf. unfold fee_rule_tx, max_size_rule_tx. rewrite He, Hs, Hf. split; [reflexivity|intros; reflexivity].
+Qed.
+Print Assumptions C30_fee_rule_ignores_other_fields.
+
+(* two transactions of the same fee-relevant size and fee get the same verdict,
+   whatever else differs (also their bytes) *)
+Theorem C30_fee_rule_same_size_same_verdict : forall t t' a b,
+  tx_size_for_fee (t_era t) (t_stored t) = tx_size_for_fee (t_era t') (t_stored t') -> t_fee t = t_fee t' ->
+  fee_rule_tx t a b = fee_rule_tx t' a b.
+Proof. intros t t' a b Hs Hf. rewrite !C30_fee_rule_function_of_fee_and_size, Hs, Hf. reflexivity. Qed.
+
 (* Max-size rule: compares the full original length - the same length the
    fee size is derived from - with the limit. *)
 Theorem C30_maxsize : forall era f xs maxsz, wf (Arr f xs) ->
